@@ -48,6 +48,13 @@ INVARIANT = [
     (lambda f, fn, kind, expr: kind == "intdiv" and "PrepareRoundEndBlock" in fn and "feeder.Interval" in expr, "C11_site_params_validate_feeder"),
     (lambda f, fn, kind, expr: kind == "index" and "GetTokenInfo" in fn and "p.Tokens[v.TokenID]" in expr, "C11_site_params_validate_feeder"),
     (lambda f, fn, kind, expr: kind == "newcoin" and "exomint" in f and "params.EpochReward" in expr, "C11_site_epoch_reward_nonneg"),
+    (lambda f, fn, kind, expr: kind == "index" and "IterateOperatorsForAVS" in fn and "keys[1]" in expr, "C11_site_avs_prefix_key_two_parts"),
+    (lambda f, fn, kind, expr: kind == "index" and "IterateAssetsForOperator" in fn and "keys[1]" in expr, "C11_site_operator_asset_keys_two_parts"),
+]
+
+# explicit panics discharged by a theorem about regenerated facts on the callers (Props/C11Sites.lean)
+CALLER_GUARD = [
+    (lambda f, fn, kind, expr: kind == "panic" and fn == "Cache.AddCache", "C11_guard_AddCache_default_unreachable"),
 ]
 
 def q(s): return '"' + s + '"'
@@ -61,6 +68,9 @@ def classify(site):
     for pred, thm in INVARIANT:
         if pred(f, fn, kind, expr):
             return '.invariant "%s"' % thm
+    for pred, thm in CALLER_GUARD:
+        if pred(f, fn, kind, expr):
+            return '.guard "%s"' % thm
     if kind == "conv":
         if "GetVotePowerForChainID" in fn:
             return '.finding "F-11f"'
